@@ -6,7 +6,7 @@ import shutil
 import tempfile
 
 from engine import SPEC, gen_states, pool_map
-from readers import eol_for, run_cli, split_tag, write_text
+from readers import join_lines, run_cli, split_tag, write_text
 
 DATA = json.load(open(os.path.join(SPEC, "data", "phase_pool.json")))
 
@@ -23,11 +23,14 @@ def split_line(line):
 
 def run_case(job):
     cid, recs, tsv, storage = job
+    import readers as _rd
+
+    _rd.CASE = str(cid)
     d = tempfile.mkdtemp(prefix="phase_")
     try:
         gaf = os.path.join(d, "a.gaf" + (".gz" if storage == "bgzf" else ""))
         lines = [gaf_line(r, k) for k, r in enumerate(recs)]
-        write_text(gaf, "\n".join(lines) + eol_for(cid), storage, block=150)
+        write_text(gaf, join_lines(lines, cid), storage, block=150)
         tp = os.path.join(d, "h.tsv")
         with open(tp, "w") as f:
             for row in tsv:
@@ -66,6 +69,10 @@ def run(ctx):
             h = rnd.choice(["H1", "H2", "none"])
             tsv.append([rnd.choice(names + ["other"]), h, "none" if h == "none" else str(rnd.randint(1, 999)), rnd.choice(["chr1", "chr2", "chrX"])])
         jobs.append((f"r{ri}", recs, tsv, rnd.choice(["plain", "bgzf"])))
+    # large files: output written in batches has its boundaries there (1000, 4096, 8192, ...)
+    for bi, n in enumerate([10000, 4097] if ctx.thorough else [8200]):
+        recs = [DATA["recs"][(7 * k + k // 11) % len(DATA["recs"])] for k in range(n)]
+        jobs.append((f"big{bi}", recs, DATA["tsvs"][3 + bi], "bgzf" if bi else "plain"))
     cases = pool_map(run_case, jobs, chunk=16)
     ctx.evaluations += len(cases)
     for c in cases:
@@ -78,5 +85,5 @@ def run(ctx):
     ctx.exhaustive = True
     ctx.notes.update({"enumerated": n_enum, "random": len(jobs) - n_enum})
     ctx.sample({k: cases[n_enum // 2][k] for k in ("tsv", "inp", "out")})
-    ctx.assumptions += ["an output path is always given (-o); optional fields from the parser-safe alphabet (C16 covers the rest)",
+    ctx.assumptions += ["output via -o FILE and, in one call of four, via standard output; optional fields from the parser-safe alphabet (C16 covers the rest)",
                         "for a read listed several times any row's annotation is accepted; the position of ps:Z/ht:Z among the optional fields is free"]
